@@ -64,6 +64,9 @@ type Buffer struct {
 	committed        bool
 	desc             ociregistry.Descriptor
 	commitErr        error
+	// committedData holds the data as it was when it was
+	// successfully committed.
+	committedData []byte
 }
 
 // NewBuffer returns a buffer that calls commit with the
@@ -78,6 +81,12 @@ func NewBuffer(commit func(b *Buffer) error, uuid string) *Buffer {
 		commit: commit,
 		uuid:   uuid,
 	}
+}
+
+func (b *Buffer) setCheckStartOffset(offset int64) {
+	b.mu.Lock()
+	defer b.mu.Unlock()
+	b.checkStartOffset = offset
 }
 
 func (b *Buffer) Cancel() error {
@@ -112,7 +121,7 @@ func (b *Buffer) GetBlob() (ociregistry.Descriptor, []byte, error) {
 	if b.commitErr != nil {
 		return ociregistry.Descriptor{}, nil, b.commitErr
 	}
-	return b.desc, b.buf, nil
+	return b.desc, b.committedData, nil
 }
 
 // Write implements io.Writer by writing some data to the blob.
@@ -148,7 +157,8 @@ func (b *Buffer) ID() string {
 // Commit implements [ociregistry.BlobWriter.Commit] by checking
 // that everything looks OK and calling the commit function if so.
 func (b *Buffer) Commit(dig ociregistry.Digest) (_ ociregistry.Descriptor, err error) {
-	if err := b.checkCommit(dig); err != nil {
+	desc, err := b.checkCommit(dig)
+	if err != nil {
 		return ociregistry.Descriptor{}, err
 	}
 	// Note: we're careful to call this function outside of the mutex so
@@ -160,18 +170,14 @@ func (b *Buffer) Commit(dig ociregistry.Digest) (_ ociregistry.Descriptor, err e
 		b.commitErr = err
 		return ociregistry.Descriptor{}, err
 	}
-	return ociregistry.Descriptor{
-		MediaType: "application/octet-stream",
-		Size:      int64(len(b.buf)),
-		Digest:    dig,
-	}, nil
+	return desc, nil
 }
 
-func (b *Buffer) checkCommit(dig ociregistry.Digest) (err error) {
+func (b *Buffer) checkCommit(dig ociregistry.Digest) (_ ociregistry.Descriptor, err error) {
 	b.mu.Lock()
 	defer b.mu.Unlock()
 	if b.commitErr != nil {
-		return b.commitErr
+		return ociregistry.Descriptor{}, b.commitErr
 	}
 	defer func() {
 		if err != nil {
@@ -181,7 +187,7 @@ func (b *Buffer) checkCommit(dig ociregistry.Digest) (err error) {
 	if got := digest.FromBytes(b.buf); got != dig {
 		// Note: don't include the content itself in the message: it can be
 		// arbitrarily large (clients limit the size of error responses).
-		return fmt.Errorf("digest mismatch (content has digest %s, not %s): %w", got, dig, ociregistry.ErrDigestInvalid)
+		return ociregistry.Descriptor{}, fmt.Errorf("digest mismatch (content has digest %s, not %s): %w", got, dig, ociregistry.ErrDigestInvalid)
 	}
 	b.desc = ociregistry.Descriptor{
 		MediaType: "application/octet-stream",
@@ -189,5 +195,8 @@ func (b *Buffer) checkCommit(dig ociregistry.Digest) (err error) {
 		Size:      int64(len(b.buf)),
 	}
 	b.committed = true
-	return nil
+	// Snapshot the data that was checked: a concurrent Write must not
+	// change what gets stored under the digest.
+	b.committedData = b.buf[:len(b.buf):len(b.buf)]
+	return b.desc, nil
 }
